@@ -1,8 +1,12 @@
 """C20 — contract queries and view functions cannot change state.
 The VM cannot be built here (no LuaJIT), so the binding is model extraction: tools/vmguards (go/ast + a small C
 scanner) rebuilds VmGuards.tla from the CURRENT contract/*.go and contract/*.c on every run; TLC checks
-ReadOnlyNoMutation / ViewImpliesReadOnly / NestingBalanced of spec/vm/ViewNesting.tla on it."""
-import json, os, random, re, shutil, subprocess
+ReadOnlyNoMutation / ViewImpliesReadOnly / NestingBalanced of spec/vm/ViewNesting.tla on it.
+Dynamic part: the extractor drops every call of a state / statedb getter from the model as "pure" (classify.go);
+READ_BINDING below names those getters, spec/vm/ReadPurity.tla generates the test plan (every read primitive x every
+target class, cache operations of two block states) and harness/state/verif_pure_test.go replays it on the real
+state package: twin runs with / without the reads, and isolation of the code/ABI caches of block states."""
+import glob, json, os, random, re, shutil, subprocess, time
 import vlib
 
 LEVEL = "model_checking"
@@ -15,10 +19,22 @@ MANIFEST = dict(
          "nested executions.  ViewNesting.tla interprets these graphs under completely nondeterministic contract code: call chains of Lua frames mixing view and "
          "non-view functions, queries, fee-delegation checks, transactions; TLC checks that no mutating primitive runs while the context is read-only, that every "
          "frame that has to be read-only runs with the flags set, that the view depth never drops below its entry value and the flags are never reset.  "
-         "A TLC counterexample is a path through named source lines of the current tree and is the verdict.",
-    note="model extraction, not execution: the extractor and its classification tables (tools/vmguards/classify.go) are in the trusted base; LuaJIT internals, sqlite "
-         "and what happens below 'this function calls that primitive under these tests' are out of scope; traces_validated_against_impl = 0",
-    technique="TLA+/TLC exhaustive model over control-flow graphs extracted from the current source; non-vacuity by node coverage; binding self-test by built-in source mutations")
+         "A TLC counterexample is a path through named source lines of the current tree and is the verdict.  "
+         "What the extraction trusts -- that the state / statedb getters the read-only primitives bottom out in (GetAccountState, GetState, GetData, GetCode, "
+         "GetAccountAndProof, GetVarAndProof, OpenContractState(Account), the code/ABI caches of a block state, ...) are pure -- is checked on the REAL state package: "
+         "a binding table names every such getter the extracted model uses (a getter missing from the table is no verdict), ReadPurity.tla (TLC-checked: reads leave "
+         "the working state unchanged, a cache lookup returns what THAT block state cached) enumerates every read primitive x target class (committed / changed / new / "
+         "unknown account, contract with committed / staged storage, new and unknown contract, existing / staged / deleted / missing key, latest and historical roots) in "
+         "every state a few transactions of the block can produce, and cache operations of two block states (one opened before, one after a redeploy); the harness "
+         "replays all of them twice (with and without the reads): after every single Go call the account buffer, storage cache, trie roots, caches and DB writes of the "
+         "block state AND of two other block states must be unchanged and the returned value must be the model's, and roots / dumps / DB contents after Update+Commit "
+         "must be equal in both runs.",
+    note="model extraction for the VM (the extractor and the mutating half of its classification tables tools/vmguards/classify.go stay in the trusted base; LuaJIT "
+         "internals, sqlite and what happens below 'this function calls that primitive under these tests' are out of scope); the read-only half of the tables is "
+         "discharged dynamically on the real state / statedb code (memorydb stands for the disk store; the VM-side call sequences getCode / GetABI are transcribed, "
+         "the deployed code is the JSON of its ABI); every transition of the ReadPurity model is replayed into the implementation (behaviours replayed > 0)",
+    technique="TLA+/TLC exhaustive model over control-flow graphs extracted from the current source; non-vacuity by node coverage; binding self-test by built-in source "
+              "mutations; TLC-enumerated read / cache transitions replayed on the real state package as a twin-run differential (model-based conformance testing)")
 SPEC_DIR = os.path.join(vlib.SPEC, "vm")
 TOOL_DIR = os.path.join(vlib.VERIF, "tools", "vmguards")
 PROPS = ("ReadOnlyNoMutation", "ViewImpliesReadOnly", "NestingBalanced")
@@ -39,6 +55,284 @@ SELF_MUTATIONS = [
     ("sql-handle-always-writable", "vm_callback.go",
      r'\tif ctx\.isQuery == true \{\n\t\ttx, err = beginReadOnly\(aid\.String\(\), curContract\.rp\)\n\t\} else \{\n(\t\ttx, err = beginTx\(aid\.String\(\), curContract\.rp\)\n)\t\}', r"\1"),
 ]
+
+# --------------------------------------------------------------------------- the trusted base, made explicit
+# Every state / statedb getter the extractor drops from the model as read-only (classify.go pureMethods and the "pure"
+# entries of pkgFuncs, restricted to receivers of packages state and state/statedb), mapped to
+#   go   : the Go call(s) it bottoms out in, by the names harness/state/verif_pure_test.go probes them under,
+#   acts : the read actions of spec/vm/ReadPurity.tla (= transitions enumerated by TLC) that exercise it,
+#   recv : receiver types (as the extractor resolves them) the entry stands for,
+#   site : where the VM reaches it (comment; the CURRENT call sites are listed in the evidence from vmguards.json),
+#   foreign : receiver expressions of calls of the same NAME on values that are not state objects.
+# The check gives NO VERDICT if the extracted model (or the text of contract/*.go) uses a getter that is not here.
+ACC = ("state.AccountState",)
+CTR = ("statedb.ContractState",)
+SDB = ("state.BlockState", "statedb.StateDB", "state.ChainStateDB")
+READ_BINDING = {
+    # -- StateDB (embedded in BlockState): the working state of the block
+    "GetAccountState": dict(recv=SDB, go=["StateDB.GetAccountState"], acts=["RdGetAccountState", "RdData", "RdMulti"],
+                            site="vm_callback.go luaGetBalance: bs.GetAccountState(aid) (contract.balance(addr)); statesql.go; below OpenContractStateAccount"),
+    "GetState": dict(recv=SDB, go=["StateDB.GetState"], acts=["RdGetState"],
+                     site="state/account.go GetAccountState (vm_state.go getCallState); vm_callback.go:148 contractProof.GetState() is the protobuf getter of types.AccountProof"),
+    "GetAccountAndProof": dict(recv=SDB, go=["StateDB.GetAccountAndProof"], acts=["RdAcctProof", "RdVarProof"],
+                               site="vm_callback.go luaGetDB with a block height: ctx.bs.GetAccountAndProof(accountId, root of that block, false)"),
+    "GetVarAndProof": dict(recv=SDB, go=["StateDB.GetVarAndProof"], acts=["RdVarProof"],
+                           site="vm_callback.go luaGetDB with a block height: ctx.bs.GetVarAndProof(trieKey, storage root of the historical state, false)"),
+    "Snapshot": dict(recv=SDB + CTR, go=["BlockState.Snapshot", "StateDB.Snapshot", "ContractState.Snapshot"], acts=["RdSnapshot"],
+                     site="vm_state.go createRecoveryPoint: cs.ctrState.Snapshot() (a revision number)"),
+    # -- the code / ABI caches of a block state (their isolation from other block states is part 3 of the harness)
+    "GetCode": dict(recv=SDB + CTR, go=["BlockState.GetCode", "ContractState.GetCode", "BlockState.GetCode/GetABI (isolation)"], acts=["RdVmLoad", "RdCode", "CacheLookup"],
+                    site="vm.go getCode: bs.GetCode(aid), contractState.GetCode(); vm_callback.go luaDeployContract"),
+    "AddCode": dict(recv=SDB, go=["BlockState.AddCode"], acts=["RdVmLoad", "CacheAdd"], site="vm.go getCode: bs.AddCode(aid, code)"),
+    "GetABI": dict(recv=SDB, go=["BlockState.GetABI", "BlockState.GetCode/GetABI (isolation)"], acts=["RdVmLoad", "CacheLookup"], site="vm.go GetABI: bs.GetABI(aid)"),
+    "AddABI": dict(recv=SDB, go=["BlockState.AddABI"], acts=["RdVmLoad", "CacheAdd"], site="vm.go GetABI: bs.AddABI(aid, abi)"),
+    # -- ContractState
+    "GetData": dict(recv=CTR, go=["ContractState.GetData"], acts=["RdData", "RdSys", "RdName"],
+                    site="vm_callback.go luaGetDB: ctrState.GetData(key); contract.go checkRedeploy (creator); system.GetStaking / name.GetAddress"),
+    "GetSourceCode": dict(recv=CTR, go=["ContractState.GetSourceCode"], acts=["RdCode"], site="vm_callback.go luaDeployContract (deploy by the address of an existing contract)"),
+    "GetID": dict(recv=CTR, go=["ContractState accessors"], acts=["RdOpenAcc"], site="vm.go NewVmContextQuery"),
+    "GetAccountID": dict(recv=CTR, go=["ContractState accessors"], acts=["RdOpenAcc"], site="vm.go getCode / GetABI"),
+    "IsMultiCall": dict(recv=CTR, go=["ContractState accessors", "statedb.GetMultiCallState"], acts=["RdOpenAcc", "RdMulti"], site="vm.go getCode / GetABI; vm_callback.go luaSetRecoveryPoint"),
+    "SetMultiCallCode": dict(recv=CTR, go=["statedb.GetMultiCallState"], acts=["RdMulti"], site="vm.go getMultiCallCode (a field of the handle, no chain state)"),
+    # -- getters of the embedded *types.State of a ContractState (protobuf getters on the in-memory copy of the account state)
+    **{n: dict(recv=CTR, go=["ContractState accessors"], acts=["RdOpenAcc"], site="vm.go getContractCode, vm_callback.go luaGetBalance: promoted from the embedded *types.State")
+       for n in ("GetCodeHash", "GetBalanceBigInt", "GetBalance", "GetNonce", "GetStorageRoot")},
+    # -- AccountState (an in-memory copy made by state.GetAccountState)
+    **{n: dict(recv=ACC, go=["AccountState accessors"], acts=["RdAccountState"], site="vm.go / vm_callback.go: accessors of callState.accState")
+       for n in ("ID", "AccountID", "State", "Balance", "Nonce", "CodeHash", "RP", "IsNew", "IsContract", "IsDeploy")},
+    # -- package-level functions
+    "state.GetAccountState": dict(go=["state.GetAccountState"], acts=["RdAccountState", "RdData", "RdCode"], site="vm_state.go getCallState: state.GetAccountState(id, bs.StateDB)"),
+    "state.InitAccountState": dict(go=["state.InitAccountState"], acts=["RdNewBS"], site="vm.go NewVmContextQuery"),
+    "state.NewBlockState": dict(go=["state.NewBlockState"], acts=["RdNewBS"], site="chain/chainservice.go (query on a throw-away block state); vm_direct"),
+    "statedb.OpenContractState": dict(go=["statedb.OpenContractState"], acts=["RdData", "RdCode"], site="vm_state.go getContractState; vm_callback.go luaSendAmount, luaDeployContract; contract.go Execute"),
+    "statedb.OpenContractStateAccount": dict(go=["statedb.OpenContractStateAccount"], acts=["RdOpenAcc", "RdData", "RdCode"], site="vm_state.go getOnlyContractState (reading another contract)"),
+    "statedb.GetMultiCallState": dict(go=["statedb.GetMultiCallState"], acts=["RdMulti"], site="vm_callback.go luaDelegateCallContract; contract.go Execute"),
+    "statedb.GetSystemAccountState": dict(go=["statedb.GetSystemAccountState"], acts=["RdSys"], site="vm_callback.go luaGetStaking"),
+    "statedb.GetNameAccountState": dict(go=["statedb.GetNameAccountState"], acts=["RdName"], site="vm_callback.go luaGetStaking"),
+    # -- same NAME as a method of the state packages, but never called on a state object in contract/
+    "Close": dict(foreign=[r"^f$", r"traceFile$"], go=[], acts=[], site="vm.go: *os.File of the call trace (state.ChainStateDB.Close is not reachable from a vmContext)"),
+    "MarshalJSON": dict(foreign=[r"^event$"], go=[], acts=[], site="vm.go: types.Event (statedb.Dump.MarshalJSON is a debugging aid)"),
+}
+STATE_PKGS = ("state", "statedb")
+
+
+def state_methods(repo):
+    """Exported methods / functions of packages state and state/statedb of the CURRENT tree: name -> receiver types."""
+    meth, funcs = {}, set()
+    for pkg, d in (("state", "state"), ("statedb", os.path.join("state", "statedb"))):
+        for f in sorted(glob.glob(os.path.join(repo, d, "*.go"))):
+            if f.endswith("_test.go"):
+                continue
+            src = open(f, encoding="utf-8", errors="replace").read()
+            for m in re.finditer(r"(?m)^func \(\s*\w*\s*\*?(\w+)\s*\) (\w+)\(", src):
+                if m.group(2)[0].isupper():
+                    meth.setdefault(m.group(2), set()).add(pkg + "." + m.group(1))
+            for m in re.finditer(r"(?m)^func (\w+)\(", src):
+                if m.group(1)[0].isupper():
+                    funcs.add(pkg + "." + m.group(1))
+    return meth, funcs
+
+
+def binding_crosscheck(model, repo, table):
+    """The getters of packages state / statedb the extractor treats as pure in the CURRENT tree, against the table.
+    Returns (problems, used: name -> [call sites])."""
+    if "pure_calls" not in model or "pure_methods" not in model:
+        return ["vmguards.json carries no pure_calls (old extractor?)"], {}
+    meth, funcs = state_methods(repo)
+    pure_m = set(model["pure_methods"])
+    problems, used = [], {}
+    for pc in model["pure_calls"] or []:
+        name, rt, recv = pc["name"], pc.get("rt") or "", pc.get("recv") or ""
+        if "." in name:                                             # package-level function
+            if name.split(".")[0] not in STATE_PKGS:
+                continue
+            if name not in funcs:
+                problems.append("%s: the model treats %s as pure, but the state packages of this tree have no such function" % (pc["src"], name))
+            ent = table.get(name)
+        else:
+            if rt and rt.split(".")[0] not in STATE_PKGS:
+                continue                                            # receiver of a known foreign type (os.File, types.Event, big.Int ...)
+            if not rt and name not in meth:
+                continue                                            # no method of that name in the state packages
+            ent = table.get(name)
+            if ent is not None and not rt and any(re.search(p, recv) for p in ent.get("foreign", [])):
+                continue
+            if ent is not None and rt and "recv" in ent and rt not in ent["recv"]:
+                ent = None
+        if ent is None or not ent.get("go"):
+            problems.append("%s: %s%s (receiver %s, type %s) is dropped from the model as read-only but has no entry in READ_BINDING" % (
+                pc["src"], name, "" if "." in name else "()", recv or "-", rt or "unknown"))
+            continue
+        used.setdefault(name, []).append("%s %s [%s]" % (pc["src"], recv or name, ",".join(pc.get("procs") or [])[:60]))
+    # belt and braces: the text of contract/*.go (call sites in functions that are in no process of the model)
+    names = sorted(n for n in pure_m if n in meth)
+    pat_m = re.compile(r"([\w\.\)\]]+)\.(%s)\(" % "|".join(map(re.escape, names))) if names else None
+    pat_f = re.compile(r"\b(state|statedb)\.([A-Z]\w*)\(")
+    pure_f = set(model.get("pure_pkg_funcs") or [])
+    for f in sorted(glob.glob(os.path.join(repo, "contract", "*.go"))):
+        if f.endswith("_test.go"):
+            continue
+        for ln, line in enumerate(open(f, encoding="utf-8", errors="replace"), 1):
+            code = line.split("//")[0]
+            for m in (pat_m.finditer(code) if pat_m else []):
+                if m.group(2) not in table:                         # (receiver types are unknown here: name level only)
+                    problems.append("%s:%d: call of %s() on %s: a pure method name of the state packages without an entry in READ_BINDING" % (
+                        os.path.basename(f), ln, m.group(2), m.group(1)))
+            for m in pat_f.finditer(code):
+                q = m.group(1) + "." + m.group(2)
+                if q in pure_f and q not in table:
+                    problems.append("%s:%d: call of %s: pure in classify.go pkgFuncs without an entry in READ_BINDING" % (os.path.basename(f), ln, q))
+    return sorted(set(problems)), used
+
+
+def fast_transitions(out):
+    """vlib.parse_transitions for lines <<tuple-only view, [flat record], tuple-only view>> with memoised parts."""
+    memo, trs = {}, []
+
+    def pv(txt):
+        v = memo.get(txt)
+        if v is None:
+            v = memo[txt] = vlib.parse_value(txt)
+        return v
+    for line in out.splitlines():
+        if not line.startswith('"TR|'):
+            continue
+        body = line[4:-1].replace('\\"', '"').replace("\\\\", "\\")
+        i = body.find("[")
+        j = body.find("]", i)
+        if i < 4 or j < 0 or not body.startswith("<<") or not body.endswith(">>") or body[i - 2:i] != ", " or body[j + 1:j + 3] != ", ":
+            v = vlib.parse_value(body)
+            trs.append((v[0], v[1], v[2]))
+            continue
+        trs.append((pv(body[2:i - 2]), pv(body[i:j + 1]), pv(body[j + 3:-2])))
+    return trs
+
+
+MUT_STEPS = ("PutAcct", "Deploy", "Write", "RdVmLoad")
+
+
+def purity_plan(trs):
+    """TLC's transitions of ReadPurity.tla -> the two graphs the harness replays: per graph the state changing edges as
+    walks from the initial state (every edge is the last step of one walk) and the read transitions of every state."""
+    def graph(sel_edge, sel_read):
+        acts, aidx, states, sidx = [], {}, [], {}
+
+        def sid(s):
+            k = json.dumps(s)
+            if k not in sidx:
+                sidx[k] = len(states)
+                states.append(s)
+            return sidx[k]
+
+        def aid(a):
+            k = json.dumps(a, sort_keys=True)
+            if k not in aidx:
+                aidx[k] = len(acts)
+                acts.append({x: y for x, y in a.items() if x != "lk" and y not in ("", False)})
+            return aidx[k]
+        edges, reads = [], {}
+        for (s, a, d) in trs:
+            if sel_read(s, a):
+                if s != d:
+                    raise vlib.Infra("ReadPurity: read transition %r changes the abstract state" % (a,))
+                reads.setdefault(sid(s), []).append(aid(a))
+            elif sel_edge(s, a):
+                edges.append((sid(s), aid(a), sid(d)))
+        return acts, states, edges, reads
+
+    def walks_of(states, edges, init):
+        out, path, todo = {}, {init: []}, [init]
+        for (s, a, d) in edges:
+            out.setdefault(s, []).append((a, d))
+        while todo:
+            s = todo.pop(0)
+            for (a, d) in out.get(s, []):
+                if d not in path:
+                    path[d] = path[s] + [[a, d]]
+                    todo.append(d)
+        unreached = [s for s in range(len(states)) if s not in path]
+        if unreached:
+            raise vlib.Infra("ReadPurity: %d states of the generated graph are not reachable from the initial state" % len(unreached))
+        return [[]] + [path[s] + [[a, d]] for (s, a, d) in edges]
+    plan = {}
+    for part, sel_edge, sel_read in (
+            ("purity", lambda s, a: a["name"] in MUT_STEPS, lambda s, a: a["name"].startswith("Rd") and a["name"] != "RdVmLoad"),
+            ("cache", lambda s, a: a["name"] in ("CacheAdd", "CacheRemove"), lambda s, a: a["name"] == "CacheLookup")):
+        acts, states, edges, reads = graph(sel_edge, sel_read)
+        inits = [i for i, s in enumerate(states) if s[4] == 0 and s[6] == 0]
+        if len(inits) != 1:
+            raise vlib.Infra("ReadPurity: %d initial states in the %s graph" % (len(inits), part))
+        plan[part] = dict(acts=acts, reads_at=[reads.get(i, []) for i in range(len(states))], walks=walks_of(states, edges, inits[0]),
+                          init=inits[0], n_states=len(states), n_edges=len(edges), n_reads=sum(len(v) for v in reads.values()))
+    return plan
+
+
+def run_purity(c, model, thorough):
+    """The dynamic part.  Returns a closure that absorbs the results into the check (called on the main thread)."""
+    work = os.path.join(c.work, "purity")
+    os.makedirs(work, exist_ok=True)
+    t0 = time.time()
+    problems, used = binding_crosscheck(model, vlib.REPO, READ_BINDING)
+    # the cross-check must be able to fail: without its GetAccountAndProof entry the table does not cover this tree
+    cut = {k: v for k, v in READ_BINDING.items() if k != "GetAccountAndProof"}
+    cut_problems, _ = binding_crosscheck(model, vlib.REPO, cut)
+    uses_proof = any(pc["name"] == "GetAccountAndProof" for pc in model.get("pure_calls") or [])
+    if problems:
+        raise vlib.Infra("the extracted model relies on state getters that the dynamic part of C20 does not cover (extend READ_BINDING in checks/c20.py, "
+                         "spec/vm/ReadPurity.tla and harness/state/verif_pure_test.go):\n" + "\n".join(problems[:30]))
+    if uses_proof and not any("GetAccountAndProof" in p for p in cut_problems):
+        raise vlib.Infra("binding cross-check self-test failed: a table without GetAccountAndProof was accepted")
+    import concurrent.futures
+    with concurrent.futures.ThreadPoolExecutor(max_workers=3) as ex:
+        f_gen = ex.submit(vlib.tlc, SPEC_DIR, "ReadPurity", "Gen_ReadPurity_big.cfg" if thorough else "Gen_ReadPurity.cfg", os.path.join(work, "gen"), workers=1, timeout=1800)
+        f_st = [(cfg, prop, ex.submit(vlib.tlc, SPEC_DIR, "ReadPurity", cfg, os.path.join(work, cfg[:-4]), workers=1, timeout=600))
+                for cfg, prop in (("ST_ReadPurity_lookup.cfg", "ReadsPure"), ("ST_ReadPurity_cache.cfg", "CacheIsolated"))]
+        gen = f_gen.result()
+        st = [(cfg, prop, f.result()) for cfg, prop, f in f_st]
+    for cfg, prop, r in st:
+        if r.violation != prop:
+            raise vlib.Infra("ReadPurity self-test: %s has to violate %s, TLC says %s\n%s" % (cfg, prop, r.violation, r.out[-1500:]))
+    if not gen.ok:
+        raise vlib.Infra("TLC run on ReadPurity.tla (%s) did not come out clean: %s\n%s" % (gen.cfg, gen.violation, "\n".join(
+            l for l in gen.out.splitlines() if not l.startswith('"TR|'))[-3000:]))
+    trs = fast_transitions(gen.out)
+    if len(trs) != gen.generated - 1:
+        raise vlib.Infra("ReadPurity: %d transitions printed, TLC generated %d states" % (len(trs), gen.generated))
+    plan = purity_plan(trs)
+    # every entry of the table is exercised by transitions TLC generated
+    seen_acts = {a["name"] for (s, a, d) in trs}
+    missing = sorted({"%s: no %s transition generated" % (g, a) for g, e in READ_BINDING.items() for a in e.get("acts", []) if a not in seen_acts})
+    if missing:
+        raise vlib.Infra("ReadPurity.tla does not generate the reads the binding table names:\n" + "\n".join(missing))
+    inp, outp = os.path.join(work, "in.json"), os.path.join(work, "out.json")
+    json.dump(dict(purity={k: plan["purity"][k] for k in ("acts", "reads_at", "walks", "init")},
+                   cache={k: plan["cache"][k] for k in ("acts", "reads_at", "walks", "init")}, sample=24 if thorough else 12), open(inp, "w"))
+    t1 = time.time()
+    rc, out = vlib.go_test("./state/", "^TestVerifReadPurity$", env={"VERIF_IN": inp, "VERIF_OUT": outp, "VERIF_SEED": c.seed, "VERIF_TIER": c.tier}, timeout=2400)
+    t2 = time.time()
+
+    def absorb():
+        c.add_tlc(gen, "ReadPurity.tla: reads leave the working state unchanged, cache lookups are per block state; complete transition list = test plan")
+        for cfg, prop, r in st:
+            c.notes.append("ReadPurity self-test: %s violates %s as it has to" % (cfg, prop))
+        r = c.absorb_go(outp, out)
+        if rc != 0 and not r.get("violations"):
+            raise vlib.Infra("read-purity harness failed:\n" + out[-3000:])
+        calls = (r.get("extra") or {}).get("go_calls") or {}
+        if not r.get("violations"):
+            idle = sorted({"%s -> %s" % (g, call) for g, e in READ_BINDING.items() for call in e.get("go", []) if not calls.get(call)})
+            if idle:
+                raise vlib.Infra("the harness did not execute Go calls the binding table names:\n" + "\n".join(idle))
+        c.traces_validated += len(plan["purity"]["walks"]) + len(plan["cache"]["walks"])
+        c.extra["read_purity"] = dict(
+            binding={g: dict(go=e.get("go"), acts=e.get("acts"), site=e.get("site"), call_sites_now=used.get(g, [])[:12]) for g, e in sorted(READ_BINDING.items())},
+            model=dict(states=gen.distinct, transitions=len(trs), cfg=gen.cfg),
+            purity=dict(states=plan["purity"]["n_states"], state_changing_edges=plan["purity"]["n_edges"], read_transitions=plan["purity"]["n_reads"],
+                        twin_runs=len(plan["purity"]["walks"])),
+            cache=dict(states=plan["cache"]["n_states"], edges=plan["cache"]["n_edges"], lookups=plan["cache"]["n_reads"], walks=len(plan["cache"]["walks"])),
+            go_calls=calls, wall_s=dict(tlc_and_plan=round(t1 - t0, 1), build_and_replay=round(t2 - t1, 1)))
+        return not r.get("violations")
+    return absorb
 
 
 def build_extractor(c):
@@ -206,12 +500,16 @@ def run(c):
     rng = random.Random(c.seed)
     thorough = c.tier == "thorough"
     c.rule = ("a case is one executed node of an extracted control-flow graph in one context (read-only flags, successor) in the coverage run, or one host-API "
-              "invocation shape (function, amount sign, statement kind); distinct = distinct (process, node, successor, isQuery, view depth > 0)")
+              "invocation shape (function, amount sign, statement kind); distinct = distinct (process, node, successor, isQuery, view depth > 0).  Dynamic part: a "
+              "case is one read transition of ReadPurity.tla executed on the real state package (read primitive, target, key, root, way of opening, target class, "
+              "expected value), one cache lookup (block state, kind, key, expected version, preceding operation) or one twin run")
     c.assumptions = ["the extractor tools/vmguards and its classification tables are trusted (model extraction: the VM cannot be built without LuaJIT)",
                      "hardfork version 5 (current); amounts of any sign; call chains of <= %d Lua frames" % (4 if thorough else 2),
                      "restoring a recovery point / dropping events back to a count taken inside the read-only section is the identity when nothing was written in between",
                      "sqlite refuses writes on a read-only connection; LuaJIT brackets every view function with lj_internal_view_start/_end, also on errors",
-                     "getLuaExecContext does not fail while a contract function runs", "TLC 1.8.0"]
+                     "getLuaExecContext does not fail while a contract function runs", "TLC 1.8.0",
+                     "dynamic part: memorydb stands for the disk store; blocks of <= %d transactions before the reads, <= %d cache operations; the VM's getCode / GetABI "
+                     "call sequence is transcribed into the harness (deployed code = JSON of its ABI)" % ((3, 3) if thorough else (2, 2))]
     if os.environ.get("VERIF_REPLAY"):
         c.notes.append("replay %s: a C20 replay is a path through source lines; re-checking it = re-extracting the model from the "
                        "current tree and re-running TLC, which is what this run does" % os.environ["VERIF_REPLAY"])
@@ -231,16 +529,25 @@ def run(c):
     import concurrent.futures
     cfg = "MC_ViewNesting_big.cfg" if thorough else "MC_ViewNesting.cfg"
     plan = self_test_plan(c, rng, 5 if thorough else 2)
-    with concurrent.futures.ThreadPoolExecutor(max_workers=4) as ex:
+    with concurrent.futures.ThreadPoolExecutor(max_workers=5) as ex:
+        f_pur = ex.submit(run_purity, c, model, thorough)
         f_mc = ex.submit(vlib.tlc, SPEC_DIR, "MC_ViewNesting", cfg, os.path.join(c.work, "mc"), workers=6, timeout=3000, files=files)
         f_gen = ex.submit(vlib.tlc, SPEC_DIR, "MC_ViewNesting", "Gen_ViewNesting.cfg", os.path.join(c.work, "cov"), workers=1, timeout=1500, files=files)
         f_st = [ex.submit(self_test_one, c, exe, *pl) for pl in plan]
         f_obs = ex.submit(vlib.tlc, SPEC_DIR, "MC_ViewNesting", "Obs_ViewNesting.cfg", os.path.join(c.work, "obs"), workers=3,
                           timeout=1500, files=files) if thorough else None
+        # 0. the dynamic part (real state package): violations are registered, an infrastructure problem is kept for later
+        pur_err = None
+        try:
+            f_pur.result()()
+        except vlib.Infra as e:
+            pur_err = e
         # 1. exhaustive check of the extracted model
         res = f_mc.result()
         if not tlc_verdict(c, res, model, "read-only contexts never reach a mutating primitive; view nesting balanced (extracted model)"):
             return
+        if pur_err is not None:
+            raise pur_err
         c.exhaustive = True
         c.extra["exhaustive_note"] = ("exhaustive over the extracted control-flow graphs (every path of every exported callback / Lua-visible C function), all "
                                       "context kinds, amount signs {-1,0,1}, call chains of <= %d Lua frames; contract code fully nondeterministic" % (4 if thorough else 2))
